@@ -66,8 +66,17 @@ class PageFeatureProcessor:
         # --- Logic from DocumentService.apply_pagination_borders ---
 
         # 1. First Page Logic
-        has_column_headers = (
-            document.rtf_column_header and len(document.rtf_column_header) > 0
+        # A header row exists only if some header object will be rendered: it has
+        # text, or its text is auto-populated from the column names.
+        auto_header = bool(getattr(document.rtf_body, "as_colheader", False))
+        header_objects = [
+            header
+            for entry in (document.rtf_column_header or [])
+            for header in (entry if isinstance(entry, (list, tuple)) else [entry])
+        ]
+        has_column_headers = any(
+            header is not None and (header.text is not None or auto_header)
+            for header in header_objects
         )
 
         # If first page, NO headers, apply PAGE border_first to top of body
